@@ -264,3 +264,10 @@ pub enum SendDatagramError {
     #[error("datagram send blocked")]
     Blocked(Bytes),
 }
+
+#[cfg(feature = "__verif-hooks")]
+#[allow(missing_docs, unreachable_pub, dead_code, unused_imports, unused_qualifications)]
+pub mod verif {
+    use super::*;
+    include!(concat!(env!("QUINN_VERIF_HOOKS"), "/proto/connection/datagrams.rs"));
+}
